@@ -31,6 +31,17 @@ def build_units(case):
     office = cfg["office"]
     seed = case.get("seed", 0)
     units = E.background(seed, office, bg.get("n", 12), bg.get("layout", "AA2"), bg.get("partial", 0))
+    for i, u in enumerate(units[: bg.get("wild", 0)]):
+        # unit 0: far outside the others in turnout factor (still inside the hard limits) and in margin; unit 1: margin only
+        if i == 0:
+            two = int((u["b_dem"] + u["b_gop"]) * 1.9)
+            big, small = int(two * 0.95), two - int(two * 0.95)
+            u["r_dem"], u["r_gop"] = (big, small) if u["b_dem"] < u["b_gop"] else (small, big)
+            u["r_turnout"] = int(u["b_turnout"] * 1.9)
+        else:
+            two = u["r_dem"] + u["r_gop"]
+            big, small = int(two * 0.93), two - int(two * 0.93)
+            u["r_dem"], u["r_gop"] = (big, small) if u["b_dem"] < u["b_gop"] else (small, big)
     weights = "twoparty" if "margin" in cfg["estimands"] else "turnout"
     dcycle = ["1", "10", "2"]
     for slot, p in enumerate(case.get("probes", [])):
